@@ -71,6 +71,9 @@ SPEC_CASES = [
     ("spec.in_kwargs", "('m',)", "{'value.items_contain': {'k': {'path': ['ref']}}}", f"Value.items_contain(k={lit(P_REF)})", []),
     ("spec.escaped", "('m',)", "{'value.equal_to': {'\\\\path': ['ref']}}", "Value.equal_to({'path': ['ref']})", []),
     ("spec.escaped.in_list", "('x',)", "{'value.in': [{'\\\\path': ['ref']}, t]}", "Value.in_([{'path': ['ref']}, t])", [("t", "int")]),
+    ("spec.escaped.multi_key.last", "('q',)", "{'value.equal_to': {'kind': 'file', '\\\\path': ['ref']}}", "Value.equal_to({'kind': 'file', 'path': ['ref']})", []),
+    ("spec.escaped.multi_key.first", "('q',)", "{'value.equal_to': {'\\\\path': ['ref'], 'kind': 'file'}}", "Value.equal_to({'path': ['ref'], 'kind': 'file'})", []),
+    ("spec.escaped.multi_key.in_kwargs", "('m2',)", "{'value.items_contain': {'k': {'kind': 'file', '\\\\path.length': ['ref']}}}", "Value.items_contain(k={'kind': 'file', 'path.length': ['ref']})", []),
     ("spec.escaped.hit", "('p',)", "{'value.equal_to': {'\\\\path': ['ref']}}", "Value.equal_to({'path': ['ref']})", []),
 ]
 
@@ -83,7 +86,7 @@ def cases(ctx):
             heavy = "ListValue()" in rpath or "list_value" in rpath
             params = list(extra) + [("r1", "int" if heavy or cid == "combined" else U), ("u1", "int" if cid == "combined" else U), ("u2", "int")]
             names = ", ".join(p[0] for p in params)
-            doc = DOC if cid != "spec.escaped.hit" else DOC[:-1] + ", 'p': {'path': ['ref']}}"
+            doc = DOC if not cid.startswith("spec.escaped") else DOC[:-1] + ", 'p': {'path': ['ref']}, 'q': {'kind': 'file', 'path': ['ref']}, 'm2': {'k': {'kind': 'file', 'path.length': ['ref']}}}"
             path_src = f"DataPath.from_part_specs(*{rpath})"
             cond_src = cond if kind == "api" else f"ConditionLike.from_spec({cond})"
             body = f"""
